@@ -1,27 +1,76 @@
 #!/usr/bin/env python3
-"""Regenerate MANIFEST.json from the table below (developer helper; the manifest is committed)."""
+"""Regenerate MANIFEST.json from the table below (developer helper; the manifest is committed).
+A property is listed under `checks` only if its check exists (harness module defines it) and its
+theorem file coq/Props/<id>.v states at least one theorem with Print Assumptions; otherwise it is
+listed under not_applicable with the reason."""
 import json
+import os
+import re
+import subprocess
 
 PROOF = "proof"
-CHECKS = {
- "C01": ("Theorems about the Gallina model of the sweeps (complement coverage, merge, difference on non-overlapping sources, window clipping) re-checked by coqc; the model is tied to /repo by running model and implementation on the same generated expressions and comparing outputs, and the Coq oracle `cover_ok` (pointwise set algebra on all breakpoints) is applied to the implementation's output.",
-         "5/C01", "Coq kernel + hand-written model + differential correspondence; Difference over a source stream with overlapping events is known finding KF-D1 (theorem carries that hypothesis); arbitrary-operand k-way intersection coverage rests on correspondence + oracle only"),
- "C02": ("Per-event reference semantics (Spec/Sets.v `ref`, `surv`) stated in Coq; exactness theorems for union/filter/clip on the model; correspondence + Coq oracle (multiset equality with `expected` on the exact domain, per-event survival everywhere).",
-         "5/C02", "as C01; KF-D1 and KF-D2 (intersection keeps one current event per operand) are recorded known findings"),
- "C03": ("Well-formedness/ordering theorems for the model's sweeps (complement gaps, merge sortedness, stored (start,end) order via SortedList insertion) + correspondence + Coq oracle `stream_wf` on every slice.",
-         "5/C03", "as C01; out-of-order fragments from KF-D1, reverse order under KF-D3"),
- "C04": ("negation lemmas (involution, order reversal) proved; forward/reverse pairs compared on the implementation by the Coq oracle (permutation + newest-first); model correspondence for both directions.",
-         "5/C04", "as C01; reverse sweeps over nested events are known finding KF-D3"),
- "C05": ("locality of the reference semantics (`clipW` composition) proved; nested-window pairs compared on the implementation by the Coq oracle.",
-         "5/C05", "as C02"),
- "C18": ("Theorems on the filter model (`feval`): a filtered timeline returns exactly the source events satisfying the predicate, in order; and/or are conjunction/disjunction; duration thresholds are exact rational comparisons (end-start vs k*scale), unbounded events infinitely long; one_of/has_any/has_all incl. empty collections. The predicate model is tied to properties.py by running filter trees over stored events on both sides; the Coq oracle compares the implementation's slice with the reference evaluation.",
-         "5/C18", "Coq kernel + model + correspondence; Duration.apply divides in floating point: the model compares exact rationals (equivalent below 2^53 s); type errors of ill-typed comparisons are outside the generator"),
- "C06": ("`csweep_spec`: the complement sweep returns plain, window-confined, sentinel-free, strictly separated gaps whose coverage is the negation of the source's, for every sorted positive-length input; canonical lists with equal coverage are equal; correspondence + Coq oracle `canonical`.",
+TECH = "Coq theorems about a Gallina model + differential correspondence (vm_compute) tying the model to /repo"
+T = {
+ "C01": ("`C01_set_algebra`: for every expression tree in the decidable domain `good` (any stored events — overlapping, nested, adjacent, duplicated, unbounded — under | & - ~ flatten and leaf filters; operands of & and sources of - internally non-overlapping) and every window, covers(slice) = window AND pointwise Boolean denotation; per-sweep theorems for union (any streams), complement (any sorted stream), difference (arbitrary subtractors), k-way intersection, window clipping. Model tied to /repo by running both on generated expression trees; the Coq oracle `cover_ok` is applied to the implementation's output on all breakpoints.",
+         "5/C01", "Coq kernel; hand-written model + correspondence; difference over a source stream with overlapping events is known finding KF-D1 (the theorem's domain excludes it, `C01_difference_overlap_refuted` keeps the witness); coverage of intersections over internally overlapping operands rests on correspondence + oracle"),
+ "C02": ("`C02_events_exact`: on `good` trees the slice is, as a multiset, the clip of the window-independent reference evaluation `ref` (each source event once per surviving part, payload intact); sweep-level exactness for union, filter, difference (list equality with `minus_runs`), k-way intersection (permutation of `inter_ref`), never-invents theorems without any domain restriction. Oracle on the implementation: multiset equality with `expected` on the exact domain, per-event survival (`events_weak_ok`) everywhere.",
+         "5/C02", "as C01; KF-D1 and KF-D2 (intersection keeps one current event per operand) are known findings with refuted-theorem witnesses"),
+ "C03": ("`C03_forward_wf` (every forward slice of a `good` tree: non-empty elements inside the window, no sentinel, non-decreasing starts), `sl_build_sorted` (stored (start,end) order for every insertion history), per-sweep order theorems incl. reverse union; correspondence + Coq oracle `stream_wf` on slices of all operators, transforms and caches in both directions.",
+         "5/C03", "as C01; out-of-order fragments under KF-D1, reverse order under KF-D3"),
+ "C04": ("`bounds_swap` (every expression), reverse = reversed forward for stored timelines, unions (permutation + newest first), complements and differences (list equality on the monotone-ends domain), `negate_sorted_iff_monotone_ends` (the exact boundary of the time-negation trick), `last_n`; forward/reverse pairs of the implementation judged by the Coq oracle (same multiset, newest first) incl. caches.",
+         "5/C04", "as C01; nested events under a negated sweep are known finding KF-D3; k-way intersection reverse rests on correspondence + oracle; recurring sources and the Google adapter are covered by C08/C20"),
+ "C05": ("`C05_locality`: on `good` trees a nested window returns exactly the clip of the wider result; `expected_local`; nested-window pairs and cache paging histories of the implementation judged by the Coq oracle.",
+         "5/C05", "as C02; recurring sources are covered by C08 (`fetch_window_independent`)"),
+ "C06": ("`csweep_spec`: the complement sweep returns plain, window-confined, sentinel-free, strictly separated gaps covering exactly the uncovered instants, for EVERY sorted positive-length input; `canonical_unique`, `flatten_idempotent`, `compl_triple` (Proofs/Canon.v); correspondence + Coq oracle `canonical` on nestings of ~, flatten, & over masks.",
          "5/C06", "Coq kernel + model + correspondence; no known finding"),
+ "C07": ("Gallina model of RecurringPattern (rrule expansion for the supported parts, safe anchor, look-back, DST-aware occurrence conversion) checked against dateutil/zoneinfo and against RecurringPattern on every run; the oracle is an independent per-local-date series (`Spec/RecurSpec.v`); calendar lemmas (one full 400-year era enumerated in the kernel + periodicity) and anchor theorems in Proofs/CivilP.v, RecurP.v.",
+         "5/C07", "dateutil.rrule and zoneinfo are external: modelled and validated differentially on every run, not verified; KF-MIXED-BYDAY (dateutil reads mixed plain/n-th BYDAY as a conjunction)"),
+ "C08": ("as C07, for totality and window independence: never raises for accepted parameters, nested windows agree, reverse = reversed forward (`pager_exactly_once`), phase kept arbitrarily far from the anchor (`anchor_phase`), look-back sufficient for durations longer than the period.",
+         "5/C08", "as C07"),
+ "C09": ("`C09_observational`: for EVERY history of bounded queries and clock advances (any ttl>0, any clock granularity incl. equal consecutive readings) over any keyed source with unique keys, the next query returns exactly the source's clipped slice, each event whole and once, in order; `sink_inv_reachable` (the stitched/fractured sink is determined by the live segments). Model tied to cache.py by histories run with a fake clock; trace oracle on the implementation.",
+         "5/C09", "Coq kernel + model + correspondence; integer fake clock (float rounding of created+ttl not modelled); order among equal-span fragments compared as multisets (Python set iteration order)"),
+ "C10": ("`heap_inv_reachable`, `fresh_covers_only` (a segment survives eviction iff fetched less than ttl ago), `economy` (source fetches = exactly the maximal parts of the window not covered by fresh segments), `no_refetch_while_fresh`, for every reachable state incl. source mutations; trace oracle on the implementation's fetch log with clock readings and version numbers.",
+         "5/C10", "as C09"),
+ "C11": ("(1) `lock_discipline facts = true` re-proved on every run against Gen/LockFacts.v regenerated from the AST of cache.py (every shared-field access inside `with self._lock`, no yield while holding it, no nested acquisition, lazily evaluated helpers materialised inside); (2) generic theorems for all thread counts, programs and schedules: mutual exclusion, serializability in lock-acquisition order, no deadlock, and with C09: every thread's result is the source's slice and the cache is correct afterwards; (3) real threads under a deterministic scheduler: every placement of 0/1 preemptions at statement granularity, judged against the Coq model's serial run.",
+         "5/C11", "threading.Lock semantics and CPython's sub-statement preemption are runtime behaviour the model cannot exhibit (named in assumptions); AST extractor trusted, fail-closed"),
+ "C12": ("`C12_history`: for EVERY operation history the model's observable trace (every success flag, every slice in both directions) is that of the abstract machine (bag of intervals + series minus removed instances); `C12_flags` (success iff effect; failed removal leaves the state literally unchanged); metadata merge. Tied to memory.py by operation histories on the real MemoryTimeline.",
+         "5/C12", "stored series are daily UTC patterns (arithmetic progressions); general rules are C07/C08"),
+ "C13": ("Gallina model of metrics.py (period windows in local wall-clock time, totals over flattened coverage, counts, extrema, ratio as exact rational, group_by) tied to the code on every run; independent spec `measure`; additivity and window theorems under an explicit zone hypothesis.",
+         "5/C13", "zoneinfo external (tables exported per run); KF-M1/M2/M3: period windows go wrong when a period boundary falls inside a DST transition's wall-clock stretch, when a shift exceeds the stepping unit, or when the range ends on a transition; final int/int float division trusted"),
+ "C14": ("operational pull-machine model of the operators (per-source pull counters mirroring generator suspension points) tied to the code by instrumented sources counting next(); theorems: composing pulls nothing, outputs depend only on the pulled prefixes, refinement to the list model, bounded termination.",
+         "5/C14", "generator suspension itself is runtime behaviour; infinite sources are periodic UTC patterns"),
+ "C15": ("(1) `purity_discipline facts = true` re-proved on every run against Gen/PurityFacts.v regenerated from the AST of the read paths (no attribute store, container mutation or global rebinding in any fetch/sweep/__getitem__/overlapping/apply method); (2) coercion theorems: aware datetimes of any zone and ints denoting the same instant give the same slice, naive/foreign bounds are TypeErrors, other steps ValueErrors; (3) two iterators over one expression consumed under random interleavings + a third evaluation all equal the model's slice.",
+         "5/C15", "int(dt.timestamp()) goes through a float (exact below 2^53 s); the cache is the stated exception to purity; AST extractor trusted, fail-closed"),
+ "C16": ("overlapping(p) = members of the unbounded evaluation containing p: exact for stored timelines (no hypotheses), unions/leaf filters/buffers, differences with any subtractors however far they reach (`diff_overlapping_spec_gen`), complements over non-overlapping sources (`compl_overlapping_expected`); correspondence + Coq oracle on the property's expression class with points inside, on the edges of and outside every interval.",
+         "5/C16", "complement's left edge uses the reverse sweep: nested source events are KF-D3; KF-D1/KF-D2 inherited; recurring leaves are covered through C08"),
+ "C17": ("`mw_spec` (merge_within meets the declarative connected-components spec for every sorted source incl. nested and unbounded events), `mw_far_apart`, `mw_group_shape`, `mw_window_global_stored`; `buf_reach_in`, `buf_fetch_sound`, `buf_clip_exact`; correspondence + Coq oracles on buffer slices and merge_within fetches in both directions.",
+         "5/C17", "Coq kernel + model + correspondence; no known finding"),
+ "C18": ("filtered timeline = exactly the source events satisfying the predicate, in order; and/or = conjunction/disjunction; duration thresholds as exact rational comparisons, unbounded = infinitely long; one_of/has_any/has_all incl. empty collections; predicate model tied to properties.py by filter trees over stored events, over intersections, and filter.apply on single events incl. zero-length and unbounded ones.",
+         "5/C18", "Duration.apply divides in floating point: the model compares exact rationals (equivalent below 2^53 s); ill-typed comparisons are outside the generator"),
+ "C19": ("abstract VEVENT model (`to_vevent`/`of_vevent`, `rrule_text`/`parse_rrule`) with round-trip theorems; tied to ical.py by really writing and loading .ics files and by expanding the emitted RRULE with dateutil.rrulestr on every run.",
+         "5/C19", "the text layer (icalendar) and the reference parser (dateutil.rrulestr) are external; recorded known findings for residues (pre-DTSTART occurrences of loaded series, fixed-offset zones, non-UTC all-day)"),
+ "C20": ("model of the adapter's conversions, reverse pager and write path over a simulated backend state machine with failure schedules; `guard_discipline facts = true` re-proved against Gen/GuardFacts.v regenerated from gcsa.py; pager exactly-once, span exactness, add-then-read and fault containment theorems; histories incl. failures at every backend call index.",
+         "5/C20", "the Google API and the gcsa object layer are replaced by a simulation (trusted); zoneinfo external"),
 }
 
-checks = []
-for pid, (text, ref, note) in CHECKS.items():
+
+def ready(pid):
+    p = f"/verif/coq/Props/{pid}.v"
+    if not os.path.exists(p) or "Print Assumptions" not in open(p).read():
+        return False, "theorem file not yet written"
+    out = subprocess.run(["/bin/bash", "-c", "cd /verif && PYTHONPATH=/repo:/verif /venv/bin/python -c \"from harness.main import all_checks; print(' '.join(sorted(all_checks())))\""],
+                         capture_output=True, text=True).stdout
+    if pid not in out.split():
+        return False, "check not yet built"
+    return True, ""
+
+
+checks, na = [], []
+for pid, (text, ref, note) in sorted(T.items()):
+    ok, why = ready(pid)
+    if not ok:
+        na.append(dict(property_id=pid, reason=f"not claimed yet: {why} (planned, DESIGN.md section {ref})"))
+        continue
     checks.append(dict(
         property_id=pid,
         quick_cmd=f"./check {pid} --tier quick",
@@ -31,24 +80,22 @@ for pid, (text, ref, note) in CHECKS.items():
         engine="coq-model+correspondence",
         level_claimed=dict(category=PROOF, text=text, design_ref=ref),
         level_note=note,
-        technique="Coq theorems on a Gallina model + differential correspondence evaluated by vm_compute",
+        technique=TECH,
     ))
-
-ALL = [f"C{n:02d}" for n in range(1, 21)]
-na = [dict(property_id=p, reason="not yet built in this round (planned, see DESIGN.md section 5); no check is registered so nothing is claimed")
-      for p in ALL if p not in CHECKS]
 
 m = dict(
     version=1,
     setup_cmd="cd /verif && ./check setup",
-    hooks=dict(guard="CALGEBRA_VERIF", enable="no source hooks are needed: checks import /repo directly (PYTHONPATH=/repo) and inject fakes by replacing module globals",
+    hooks=dict(guard="CALGEBRA_VERIF",
+               enable="no source hooks are needed: checks import /repo directly (PYTHONPATH=/repo) and inject fakes (clock, lock, sources, Google client) by replacing module globals or constructor arguments",
                baseline_off_cmd="cd /repo && /venv/bin/python -m pytest -ra -q -p no:cacheprovider --timeout=900 --continue-on-collection-errors",
                source_commits=[], add_only=True),
-    engines=[dict(name="coq-model+correspondence", path="/verif/check", serves_properties=list(CHECKS),
-                  kind_free_text="Coq 8.16 development (coq/) + Python harness (harness/) that evaluates model and oracles with vm_compute on cases run against /repo")],
+    engines=[dict(name="coq-model+correspondence", path="/verif/check", serves_properties=[c["property_id"] for c in checks],
+                  kind_free_text="Coq 8.16 development (coq/) + Python harness (harness/) evaluating models and oracles with vm_compute on cases run against /repo")],
     checks=checks,
     not_applicable=na,
-    notes="See DESIGN.md. Known findings are listed in known-findings.txt with witnesses under findings/.",
+    notes="See DESIGN.md. Known findings: known-findings.txt with witnesses under findings/. Seeded changes used to validate the checks: seeded/.",
 )
 json.dump(m, open("/verif/MANIFEST.json", "w"), indent=1)
-print("checks:", len(checks), "not_applicable:", len(na))
+print("checks:", [c["property_id"] for c in checks])
+print("not_applicable:", [n["property_id"] for n in na])
